@@ -204,7 +204,7 @@ pub fn strategy() -> BoxedStrategy<C15Case> {
             1 => Just(Some(WTtl::Time(60_000))),
             1 => Just(Some(WTtl::Forever)),
         ],
-        proptest::collection::vec((0u8..5, any::<bool>()), 1..=3),
+        proptest::collection::vec((0u8..6, any::<bool>()), 1..=3),
         proptest::bool::weighted(0.12),
     )
         .prop_map(|(handler_ctx, appends, (fail, fail_in_builtin, builtin_kind), ret, suffix, ret_ttl, triggers, ret_frame)| C15Case {
@@ -316,7 +316,9 @@ fn run_in(case: &C15Case, nu: &mut Nu) -> Result<CaseInfo, Fail> {
     let mut triggers = Vec::new();
     let mut trigger_bytes: Vec<Option<Vec<u8>>> = Vec::new();
     for (i, (content, meta)) in case.triggers.iter().enumerate() {
-        let c: Option<Vec<u8>> = match content % 5 {
+        let c: Option<Vec<u8>> = match content % 6 {
+            // text that begins with a byte-order mark: content is bytes, nothing is trimmed
+            5 => Some([&[0xEF, 0xBB, 0xBF][..], format!("{{\"bom\": {i}}}").as_bytes()].concat()),
             0 => None,
             1 => Some(format!("trigger-{i}").into_bytes()),
             2 => Some(vec![0xff, 0x00, 0xfe, i as u8, b'\n', 0xc3]),
@@ -506,11 +508,11 @@ fn run_in(case: &C15Case, nu: &mut Nu) -> Result<CaseInfo, Fail> {
         (case.suffix.is_some() || case.ret_ttl.is_some(), "return-options"),
         (case.appends.iter().any(|a| a.ttl == Some(WTtl::Ephemeral)) || case.ret_ttl == Some(WTtl::Ephemeral), "ephemeral-output"),
         (
-            !will_fail && case.appends.iter().any(|a| a.echo) && case.triggers.iter().any(|(c, _)| c % 5 != 0),
+            !will_fail && case.appends.iter().any(|a| a.echo) && case.triggers.iter().any(|(c, _)| c % 6 != 0),
             "trigger-content-echoed-through-.cas",
         ),
         (
-            !will_fail && case.appends.iter().any(|a| a.echo) && case.triggers.iter().any(|(c, _)| c % 5 == 2),
+            !will_fail && case.appends.iter().any(|a| a.echo) && case.triggers.iter().any(|(c, _)| c % 6 == 2),
             "non-utf8-content-echoed-through-.cas",
         ),
     ] {
